@@ -29,7 +29,7 @@ def gen_case(rng, i):
     base = [gen.rrow(rng, vs, nmax=min(3, nv), dyadic=dy, posbias=0.8) for _ in range(rng.randint(1, 4))]
     ctx = [gen.rrow(rng, vs, nmax=2, dyadic=dy, posbias=0.8) for _ in range(rng.randint(0, 2))]
     S = list(base)
-    shape = i % 8
+    shape = i % 9
     pool = base + ctx
     if shape == 0:
         S.append(rng.choice(base))                      # exact duplicate
@@ -63,6 +63,14 @@ def gen_case(rng, i):
         S.append(({v: -a for v, a in r[0].items()}, -r[1] - rng.choice([1, 2, 2.0**-7])))
     rng.shuffle(S)
     S = S[:6]
+    if shape == 8:
+        # a row of the list stands word for word in the context and is listed FIRST, so that leaving it out changes the
+        # order in which the remaining rows introduce their variables (the next row mentions that variable last)
+        v1, v2 = rng.sample(vs, 2)
+        r = ({v1: rng.choice([1, -1, 2])}, rng.randint(0, 4))
+        nxt = ({v2: rng.choice([1, -1, 3]), v1: rng.choice([2, -2, 1])}, rng.randint(0, 5))
+        ctx.insert(rng.randint(0, len(ctx)), r)
+        S = [r, nxt] + S[:4]
     if shape == 7:
         # a row without variables (what is left of  x + 1 <= x): vacuous when its constant is >= 0, a contradiction otherwise;
         # first, last or anywhere, in the list or in the context
@@ -85,6 +93,8 @@ def gen_cases(tier):
         c = gen_case(rng, i)
         c["id"] = i + 1
         c["via"] = ["list", "list", "contract", "noctx"][i % 4]
+        if i % 6 == 1:
+            c["pre_elim"] = True     # the same list goes through an elimination first (same process): nothing may be remembered wrongly
         if i % 5 == 0:
             tw = print_twin(rng, c["S"])        # a second call in the same process on a list that prints identically
             if tw:
@@ -93,13 +103,40 @@ def gen_cases(tier):
     return out
 
 
+def pre_eliminate(case):
+    """eliminate each variable of the list by relaxing, in the context, and throw the results away"""
+    from pacti.iocontract import Var
+
+    ctx = gen.mk_list(case["ctx"] if case["via"] != "noctx" else [])
+    # the list with one more (implied) row, whose simplification is the list of the event, then the list itself
+    for rows in (case["S"] + [weakened(r, 1) for r in case["S"][:1] if r[0]], case["S"]):
+        tl = gen.mk_list(rows)
+        for v in sorted({str(x) for x in tl.vars}):
+            for simp in (True, False):
+                try:
+                    tl.elim_vars_by_relaxing(ctx, [Var(v)], simplify=simp)
+                except ValueError:
+                    pass
+
+
 def run_case(case):
     via = case["via"]
+    if case.get("pre_elim"):
+        pre_eliminate(case)
     if via == "noctx":
         ev = lpev.ev_simplify(case["S"], [], "list", with_ctx=False)
     else:
         ev = lpev.ev_simplify(case["S"], case["ctx"], via)
     evs = [ev]
+    if case.get("pre_elim") and ev["exc"] == "none":
+        # simplifying the simplified list again (idempotence, and a list the earlier elimination has seen in its closing step)
+        ctx_l = gen.mk_list([] if via == "noctx" else case["ctx"])
+        try:
+            again = gen.mk_list(case["S"]).simplify(ctx_l if via != "noctx" else None)
+            raw = [({str(v): float(a) for v, a in t.variables.items()}, float(t.constant)) for t in again.terms]
+            evs.append(lpev.ev_simplify(raw, [] if via == "noctx" else case["ctx"], "list", with_ctx=via != "noctx"))
+        except ValueError:
+            pass
     if case.get("twin"):
         evs.append(lpev.ev_simplify(case["twin"], [] if via == "noctx" else case["ctx"], "list", with_ctx=via != "noctx"))
     return {"id": case["id"], "ev": evs}
@@ -110,7 +147,7 @@ def main(tier, replay=None):
         PROP, tier, gen_cases(tier), run_case,
         "(list, context) with <= 6 rows over <= 5 variables and planted redundancy: duplicates, scalings, positive combinations "
         "(slack 0, 2^-10, 1), rows implied only through the context, same left side with different bounds in any position, "
-        "near twins (integer rows scaled by 10^5, one coefficient off by one), contradictions, rows without variables (vacuous or contradictory) in any position, a second call on a list that prints identically (one coefficient larger by 2^-14 of itself); through TermList.simplify with/without context and through contract "
+        "near twins (integer rows scaled by 10^5, one coefficient off by one), contradictions, rows without variables (vacuous or contradictory) in any position, a row standing word for word in the context and listed first, an elimination on the same list before the call, a second call on a list that prints identically (one coefficient larger by 2^-14 of itself); through TermList.simplify with/without context and through contract "
         "construction; non-trivial = simplification returned and dropped at least one row, or raised on an infeasible system",
         owner=lambda ev: PROP, replay=replay,
         extra=lambda rep, rd: __import__("lpalgo").conformance(rep, rd, PROP, {"reduce"}, 200 if tier == "quick" else 4000, seed()),
